@@ -84,6 +84,558 @@ Proof.
   congruence.
 Qed.
 
+(* the inode an open returns is one a directory entry points to *)
+Lemma resolve_dir : forall fuel s n fin j, resolve fuel s n = Some (fin, Some j) -> dir s fin = Some j.
+Proof.
+  induction fuel; simpl; intros s n fin j.
+  - destruct (dir s n) eqn:E; [|intro H; inversion H].
+    destruct (ino s n0) as [[b m k]|]; [destruct k|]; intro H; inversion H; subst; auto.
+  - destruct (dir s n) eqn:E; [|intro H; inversion H].
+    destruct (ino s n0) as [[b m k]|]; [destruct k|]; intro H; try (inversion H; subst; auto; fail). eauto.
+Qed.
+
+Lemma resolve_regular : forall fuel s n j b m, dir s n = Some j -> ino s j = Some (mkInode b m Regular) ->
+  resolve fuel s n = Some (n, Some j).
+Proof. intros fuel s n j b m Hd Hi. destruct fuel; simpl; rewrite Hd, Hi; reflexivity. Qed.
+
+
+Lemma nlook_set : forall (l : list (str * (str * N))) k v k',
+  alookup str_eqb k' ((k, v) :: aremove str_eqb k l) = if str_eqb k' k then Some v else alookup str_eqb k' l.
+Proof.
+  intros. simpl. destruct (str_eqb k' k) eqn:E; auto.
+  apply alookup_remove_neq. exact str_eqb_eq. apply str_eqb_neq. exact E.
+Qed.
+Lemma nlook_rm : forall (l : list (str * (str * N))) k k',
+  alookup str_eqb k' (aremove str_eqb k l) = if str_eqb k' k then None else alookup str_eqb k' l.
+Proof.
+  intros. destruct (str_eqb k' k) eqn:E.
+  - apply str_eqb_eq in E. subst. apply alookup_remove_eq.
+  - apply alookup_remove_neq. exact str_eqb_eq. apply str_eqb_neq. exact E.
+Qed.
+Lemma flook_set : forall (l : list (N * (str * nat))) k v k',
+  alookup N.eqb k' ((k, v) :: aremove N.eqb k l) = if N.eqb k' k then Some v else alookup N.eqb k' l.
+Proof.
+  intros. simpl. destruct (N.eqb k' k) eqn:E; auto.
+  apply alookup_remove_neq. exact Neqb_spec. apply N.eqb_neq. exact E.
+Qed.
+Lemma flook_rm : forall (l : list (N * (str * nat))) k k',
+  alookup N.eqb k' (aremove N.eqb k l) = if N.eqb k' k then None else alookup N.eqb k' l.
+Proof.
+  intros. destruct (N.eqb k' k) eqn:E.
+  - apply N.eqb_eq in E. subst. apply alookup_remove_eq.
+  - apply alookup_remove_neq. exact Neqb_spec. apply N.eqb_neq. exact E.
+Qed.
+
+(* --- the simulation invariant ------------------------------------------------ *)
+Local Arguments str_eqb : simpl never.
+Local Arguments resolve : simpl never.
+Local Opaque LOOPMAX.
+Local Arguments upd_s : simpl never.
+Local Arguments upd_n : simpl never.
+Local Arguments upd_N : simpl never.
+Section Sim.
+  Variables (replace : bool) (target : str) (mode : N) (new : str) (I0 : inode) (next0 : nat).
+
+  Definition newI := mkInode new mode Regular.
+
+  Definition target_ok (s : fs) : Prop :=
+    exists ti I, dir s target = Some ti /\ ino s ti = Some I /\
+                 (I = I0 \/ (replace = true /\ I = newI)).
+
+  Definition sole_name (s : fs) (j : nat) (n : str) : Prop :=
+    forall n', dir s n' = Some j -> n' = n.
+
+  Definition names_ok (c : cst) (s : fs) : Prop :=
+    forall n cont md, nlook c n = Some (cont, md) ->
+      exists j, dir s n = Some j /\ ino s j = Some (mkInode cont md Regular) /\ sole_name s j n.
+
+  Definition outside (c : cst) (s : fs) (j : nat) : Prop :=
+    dir s target <> Some j /\ forall n, nlook c n <> None -> dir s n <> Some j.
+
+  Definition fds_ok (c : cst) (s : fs) : Prop :=
+    forall fd e, fds s fd = Some e ->
+      match flook c fd with
+      | Some (n, off) => nlook c n <> None /\ dir s n = Some (fe_ino e) /\ fe_off e = off /\ fe_wr e = true
+      | None => fe_wr e = true -> outside c s (fe_ino e)
+      end.
+
+  Definition cfds_ok (c : cst) (s : fs) : Prop :=
+    forall fd n off, flook c fd = Some (n, off) -> fds s fd <> None.
+
+  Definition left_ok (c : cst) (s : fs) : Prop :=
+    forall n j, dir s n = Some j -> next0 <= j -> n = target \/ nlook c n <> None.
+
+  Record R (c : cst) (s : fs) : Prop := mkR {
+    R_wf : wf s;
+    R_next : next0 <= next s;
+    R_t : target_ok s;
+    R_tn : nlook c target = None;
+    R_n : names_ok c s;
+    R_f : fds_ok c s;
+    R_cf : cfds_ok c s;
+    R_l : left_ok c s
+  }.
+
+  Ltac str_cases :=
+    repeat match goal with
+    | H : context [str_eqb ?a ?b] |- _ =>
+        let E := fresh "E" in destruct (str_eqb a b) eqn:E;
+        [apply str_eqb_eq in E; try subst | apply str_eqb_neq in E]
+    | |- context [str_eqb ?a ?b] =>
+        let E := fresh "E" in destruct (str_eqb a b) eqn:E;
+        [apply str_eqb_eq in E; try subst | apply str_eqb_neq in E]
+    end.
+
+  (* the target's inode is never the inode of a created name *)
+  Lemma target_not_created : forall c s n cont md j,
+    R c s -> nlook c n = Some (cont, md) -> dir s n = Some j -> dir s target <> Some j.
+  Proof.
+    intros c s n cont md j HR Hn Hd Ht.
+    destruct (R_n _ _ HR _ _ _ Hn) as (j' & Hd' & _ & Hsole).
+    rewrite Hd in Hd'. inversion Hd'; subst j'.
+    apply Hsole in Ht. subst n. rewrite (R_tn _ _ HR) in Hn. discriminate.
+  Qed.
+
+
+  Ltac unf := unfold wf, target_ok, names_ok, fds_ok, cfds_ok, left_ok, outside, sole_name, nlook, flook in *;
+              cbn [dir ino fds next fe_ino fe_wr fe_off c_names c_fds] in *.
+  Ltac start HR := destruct HR as [[Hwd Hwf] Hnx Ht Htn Hn Hf Hcf Hl]; constructor; [split|..]; unf.
+
+  Ltac beq :=
+    match goal with
+    | H : str_eqb ?a ?b = true |- _ => apply str_eqb_eq in H; try subst
+    | H : str_eqb ?a ?b = false |- _ => apply str_eqb_neq in H
+    | H : Nat.eqb ?a ?b = true |- _ => apply Nat.eqb_eq in H; try subst
+    | H : Nat.eqb ?a ?b = false |- _ => apply Nat.eqb_neq in H
+    | H : N.eqb ?a ?b = true |- _ => apply N.eqb_eq in H; try subst
+    | H : N.eqb ?a ?b = false |- _ => apply N.eqb_neq in H
+    end.
+  Ltac cases :=
+    repeat (match goal with
+    | |- context [str_eqb ?a ?b] => destruct (str_eqb a b) eqn:?
+    | |- context [Nat.eqb ?a ?b] => destruct (Nat.eqb a b) eqn:?
+    | |- context [N.eqb ?a ?b] => destruct (N.eqb a b) eqn:?
+    | H : context [str_eqb ?a ?b] |- _ => destruct (str_eqb a b) eqn:?
+    | H : context [Nat.eqb ?a ?b] |- _ => destruct (Nat.eqb a b) eqn:?
+    | H : context [N.eqb ?a ?b] |- _ => destruct (N.eqb a b) eqn:?
+    end; repeat beq).
+  Ltac fin := try congruence; try lia; eauto.
+
+
+  Lemma step_Fsync : forall c s c' s' fd,
+    R c s -> cstep replace target mode new c (Fsync fd) = Some c' -> step s (Fsync fd) = Some s' -> R c' s'.
+  Proof. intros. simpl in *. congruence. Qed.
+
+  Lemma step_OpenRead : forall c s c' s' n fd,
+    R c s -> cstep replace target mode new c (OpenRead n fd) = Some c' -> step s (OpenRead n fd) = Some s' -> R c' s'.
+  Proof.
+    intros c s c' s' n fd HR Hc Hs. simpl in Hc, Hs.
+    destruct (flook c fd) eqn:Efl; simpl in Hc; try discriminate. inversion Hc; subst c'; clear Hc.
+    destruct (resolve LOOPMAX s n) as [[fin [j|]]|] eqn:Er; try discriminate. injection Hs as <-.
+    start HR; auto.
+    - intros fd' e. unfold upd_N. cases; fin. intro H; inversion H; subst; cbn [fe_ino fe_wr fe_off].
+      apply resolve_dir in Er. eauto.
+    - intros fd' e. unfold upd_N. destruct (N.eqb fd fd') eqn:E; beq; [|apply Hf].
+      intro H; inversion H; subst; cbn [fe_ino fe_wr fe_off]. unfold flook in Efl. rewrite Efl. discriminate.
+    - intros fd' m off H. unfold upd_N. destruct (N.eqb fd fd') eqn:E; beq; [discriminate|eapply Hcf; eauto].
+  Qed.
+
+  Lemma step_Close : forall c s c' s' fd,
+    R c s -> cstep replace target mode new c (Close fd) = Some c' -> step s (Close fd) = Some s' -> R c' s'.
+  Proof.
+    intros c s c' s' fd HR Hc Hs. simpl in Hc, Hs. injection Hc as <-. injection Hs as <-.
+    start HR; auto.
+    - intros fd' e. unfold upd_N. destruct (N.eqb fd fd') eqn:E; beq; [discriminate|]. apply Hwf.
+    - intros fd' e. unfold upd_N. destruct (N.eqb fd fd') eqn:E; beq; [discriminate|].
+      rewrite flook_rm. replace (N.eqb fd' fd) with false by (symmetry; apply N.eqb_neq; congruence). apply Hf.
+    - intros fd' m off. rewrite flook_rm. unfold upd_N. rewrite (N.eqb_sym fd fd').
+      destruct (N.eqb fd' fd) eqn:E; [discriminate|]. apply Hcf.
+  Qed.
+
+  (* an inode that is neither the target's nor a created file's may change freely *)
+  Lemma ino_frame : forall c s ino' fds',
+    R c s ->
+    (forall j, (dir s target = Some j \/ exists n, nlook c n <> None /\ dir s n = Some j) -> ino' j = ino s j) ->
+    (forall fd e, fds' fd = Some e -> exists e0, fds s fd = Some e0 /\ fe_ino e = fe_ino e0 /\ fe_wr e = fe_wr e0 /\
+                                        (flook c fd <> None -> fe_off e = fe_off e0)) ->
+    (forall fd, fds s fd <> None -> fds' fd <> None) ->
+    R c (mkFs (dir s) ino' fds' (next s)).
+  Proof.
+    intros c s ino' fds' HR Hino Hfds Hdom.
+    start HR; auto.
+    - intros fd e H. destruct (Hfds _ _ H) as (e0 & H0 & Hi & _). rewrite Hi. eapply Hwf; eauto.
+    - destruct Ht as (ti & I & Hd & Hi & HI). exists ti, I. repeat split; auto. rewrite Hino; auto.
+    - intros n cont md H. destruct (Hn _ _ _ H) as (j & Hd & Hi & Hso). exists j. repeat split; auto.
+      rewrite Hino; auto. right. exists n. split; auto. congruence.
+    - intros fd e H. destruct (Hfds _ _ H) as (e0 & H0 & Hi & Hw & Ho). specialize (Hf _ _ H0).
+      destruct (alookup N.eqb fd (c_fds c)) as [[m off]|] eqn:El.
+      + destruct Hf as (Hm & Hd & Hoff & Hwr). repeat split; auto; try congruence. rewrite Ho; auto. discriminate.
+      + rewrite Hi, Hw. exact Hf.
+    - intros fd m off H. apply Hdom. eapply Hcf; eauto.
+  Qed.
+
+  Lemma step_Write : forall c s c' s' fd data,
+    R c s -> cstep replace target mode new c (Write fd data) = Some c' -> step s (Write fd data) = Some s' -> R c' s'.
+  Proof.
+    intros c s c' s' fd data HR Hc Hs. simpl in Hc, Hs.
+    destruct (flook c fd) as [[n off]|] eqn:Efl.
+    - (* a descriptor of a created file *)
+      destruct (nlook c n) as [[cont md]|] eqn:Enl; try discriminate. injection Hc as <-.
+      pose proof (R_cf _ _ HR _ _ _ Efl) as Hex. destruct (fds s fd) as [e|] eqn:Efd; [clear Hex|congruence].
+      pose proof (R_f _ _ HR _ _ Efd) as Hfd. rewrite Efl in Hfd. destruct Hfd as (_ & Hdn & Hoff & Hwr).
+      destruct (R_n _ _ HR _ _ _ Enl) as (j & Hdj & Hij & Hsole).
+      assert (Hne : n <> target) by (intro; subst; rewrite (R_tn _ _ HR) in Enl; discriminate).
+      destruct e as [j' w o]. simpl in *. subst w o. assert (j' = j) by congruence. subst j'.
+      rewrite Hij in Hs. injection Hs as <-.
+      start HR; auto.
+      + intros fd' e. unfold upd_N. destruct (N.eqb fd fd') eqn:E; beq.
+        * intro H; inversion H; subst; cbn [fe_ino fe_wr fe_off]. eapply Hwd; eauto.
+        * apply Hwf.
+      + destruct Ht as (ti & I & Hd & Hi & HI). exists ti, I. repeat split; auto.
+        unfold upd_n. destruct (Nat.eqb j ti) eqn:E; beq; auto. apply Hsole in Hd. congruence.
+      + rewrite nlook_set. replace (str_eqb target n) with false by (symmetry; apply str_eqb_neq; congruence). exact Htn.
+      + intros n' cont' md'. rewrite nlook_set. destruct (str_eqb n' n) eqn:E; beq.
+        * intro H; inversion H; subst. exists j. unfold upd_n. rewrite Nat.eqb_refl. repeat split; auto.
+        * intro H. destruct (Hn _ _ _ H) as (j2 & Hd2 & Hi2 & Hso2). exists j2. repeat split; auto.
+          unfold upd_n. destruct (Nat.eqb j j2) eqn:E2; beq; auto. apply Hso2 in Hdj. congruence.
+      + intros fd' e. unfold upd_N. rewrite flook_set. rewrite (N.eqb_sym fd' fd). destruct (N.eqb fd fd') eqn:E; beq.
+        * intro H; inversion H; subst; cbn [fe_ino fe_wr fe_off]. rewrite nlook_set, str_eqb_refl. repeat split; auto. discriminate.
+        * intro H. specialize (Hf _ _ H). destruct (alookup N.eqb fd' (c_fds c)) as [[m o]|] eqn:El.
+          -- destruct Hf as (Hm & Hd & Ho & Hw). repeat split; auto. rewrite nlook_set. destruct (str_eqb m n); auto. discriminate.
+          -- intro Hw. destruct (Hf Hw) as [H1 H2]. split; auto. intros n2. rewrite nlook_set.
+             destruct (str_eqb n2 n) eqn:E2; beq; [intros _|apply H2]. apply H2. unfold nlook in Enl. congruence.
+      + intros fd' m o. rewrite flook_set. unfold upd_N. rewrite (N.eqb_sym fd' fd). destruct (N.eqb fd fd') eqn:E; beq.
+        * discriminate.
+        * apply Hcf.
+      + intros n2 j2 Hd2 Hge. rewrite nlook_set. destruct (str_eqb n2 n) eqn:E; beq; [right; discriminate|]. eapply Hl; eauto.
+    - (* any other descriptor *)
+      injection Hc as <-.
+      destruct (fds s fd) as [[j w off]|] eqn:Efd; [|congruence].
+      destruct w; [|congruence].
+      destruct (ino s j) as [i|] eqn:Ei; [|congruence]. injection Hs as <-.
+      pose proof (R_f _ _ HR _ _ Efd) as Hfd. rewrite Efl in Hfd. simpl in Hfd. destruct (Hfd eq_refl) as [Ho1 Ho2].
+      apply ino_frame; auto.
+      + intros j' [H|(n & Hn1 & Hn2)]; unfold upd_n; destruct (Nat.eqb j j') eqn:E; beq; auto.
+        * congruence.
+        * exfalso. eapply Ho2; eauto.
+      + intros fd' e. unfold upd_N. destruct (N.eqb fd fd') eqn:E; beq.
+        * intro H; inversion H; subst; cbn [fe_ino fe_wr fe_off]. exists (mkFd j true off). repeat split; auto. congruence.
+        * intro H. exists e. auto.
+      + intros fd'. unfold upd_N. destruct (N.eqb fd fd') eqn:E; beq; auto. discriminate.
+  Qed.
+
+  (* contents / mode of a created file change, in the checker and in the state alike *)
+  Lemma R_set_created : forall c s n cont md j cont' md',
+    R c s -> nlook c n = Some (cont, md) -> dir s n = Some j ->
+    R (mkCst ((n, (cont', md')) :: aremove str_eqb n (c_names c)) (c_fds c))
+      (mkFs (dir s) (upd_n (ino s) j (Some (mkInode cont' md' Regular))) (fds s) (next s)).
+  Proof.
+    intros c s n cont md j cont' md' HR Enl Hdj.
+    destruct (R_n _ _ HR _ _ _ Enl) as (j0 & Hdj0 & Hij & Hsole). assert (j0 = j) by congruence. subst j0.
+    assert (Hne : n <> target) by (intro; subst; rewrite (R_tn _ _ HR) in Enl; discriminate).
+    start HR; auto.
+    - destruct Ht as (ti & I & Hd & Hi & HI). exists ti, I. repeat split; auto.
+      unfold upd_n. destruct (Nat.eqb j ti) eqn:E; beq; auto. apply Hsole in Hd. congruence.
+    - rewrite nlook_set. replace (str_eqb target n) with false by (symmetry; apply str_eqb_neq; congruence). exact Htn.
+    - intros n' c2 m2. rewrite nlook_set. destruct (str_eqb n' n) eqn:E; beq.
+      + intro H; inversion H; subst. exists j. unfold upd_n. rewrite Nat.eqb_refl. repeat split; auto.
+      + intro H. destruct (Hn _ _ _ H) as (j2 & Hd2 & Hi2 & Hso2). exists j2. repeat split; auto.
+        unfold upd_n. destruct (Nat.eqb j j2) eqn:E2; beq; auto. apply Hso2 in Hdj. congruence.
+    - intros fd' e H. specialize (Hf _ _ H). destruct (alookup N.eqb fd' (c_fds c)) as [[m o]|] eqn:El.
+      + destruct Hf as (Hm & Hd & Ho & Hw). repeat split; auto. rewrite nlook_set. destruct (str_eqb m n); auto. discriminate.
+      + intro Hw. destruct (Hf Hw) as [H1 H2]. split; auto. intros n2. rewrite nlook_set.
+        destruct (str_eqb n2 n) eqn:E2; beq; [intros _|apply H2]. apply H2. unfold nlook in Enl. congruence.
+    - intros n2 j2 Hd2 Hge. rewrite nlook_set. destruct (str_eqb n2 n) eqn:E; beq; [right; discriminate|]. eapply Hl; eauto.
+  Qed.
+
+  Lemma step_Fchmod : forall c s c' s' fd md',
+    R c s -> cstep replace target mode new c (Fchmod fd md') = Some c' -> step s (Fchmod fd md') = Some s' -> R c' s'.
+  Proof.
+    intros c s c' s' fd md' HR Hc Hs. simpl in Hc, Hs.
+    destruct (flook c fd) as [[n off]|] eqn:Efl; try discriminate.
+    destruct (nlook c n) as [[cont md]|] eqn:Enl; try discriminate. injection Hc as <-.
+    pose proof (R_cf _ _ HR _ _ _ Efl) as Hex. destruct (fds s fd) as [e|] eqn:Efd; [clear Hex|congruence].
+    pose proof (R_f _ _ HR _ _ Efd) as Hfd. rewrite Efl in Hfd. destruct Hfd as (_ & Hdn & _ & _).
+    destruct (R_n _ _ HR _ _ _ Enl) as (j & Hdj & Hij & Hsole). assert (fe_ino e = j) by congruence.
+    rewrite H, Hij in Hs. injection Hs as <-. unfold set_mode. cbn [i_bytes i_kind].
+    eapply R_set_created; eauto.
+  Qed.
+
+  Lemma step_Chmod : forall c s c' s' n md',
+    R c s -> cstep replace target mode new c (Chmod n md') = Some c' -> step s (Chmod n md') = Some s' -> R c' s'.
+  Proof.
+    intros c s c' s' n md' HR Hc Hs. simpl in Hc, Hs.
+    destruct (nlook c n) as [[cont md]|] eqn:Enl; try discriminate. injection Hc as <-.
+    destruct (R_n _ _ HR _ _ _ Enl) as (j & Hdj & Hij & Hsole).
+    rewrite (resolve_regular _ _ _ _ _ _ Hdj Hij), Hij in Hs. injection Hs as <-. unfold set_mode. cbn [i_bytes i_kind].
+    eapply R_set_created; eauto.
+  Qed.
+
+  Lemma step_Unlink : forall c s c' s' n,
+    R c s -> cstep replace target mode new c (Unlink n) = Some c' -> step s (Unlink n) = Some s' -> R c' s'.
+  Proof.
+    intros c s c' s' n HR Hc Hs. simpl in Hc, Hs.
+    destruct (str_eqb n target) eqn:Ent; simpl in Hc; try discriminate.
+    destruct (fd_on c n) eqn:Efo; try discriminate. injection Hc as <-.
+    destruct (dir s n) as [jn|] eqn:Edn; try discriminate. injection Hs as <-. beq.
+    pose proof (fd_on_false c n) as Hfo.
+    start HR; auto.
+    - intros n' j. unfold upd_s. destruct (str_eqb n n') eqn:E; beq; [discriminate|apply Hwd].
+    - destruct Ht as (ti & I & Hd & Hi & HI). exists ti, I. repeat split; auto.
+      unfold upd_s. destruct (str_eqb n target) eqn:E; beq; congruence.
+    - rewrite nlook_rm. destruct (str_eqb target n); auto.
+    - intros n' c2 m2. rewrite nlook_rm. destruct (str_eqb n' n) eqn:E; beq; [discriminate|].
+      intro H. destruct (Hn _ _ _ H) as (j2 & Hd2 & Hi2 & Hso2). exists j2. unfold upd_s.
+      replace (str_eqb n n') with false by (symmetry; apply str_eqb_neq; congruence). repeat split; auto.
+      intros n2. destruct (str_eqb n n2); [discriminate|apply Hso2].
+    - intros fd' e H. specialize (Hf _ _ H). destruct (alookup N.eqb fd' (c_fds c)) as [[m o]|] eqn:El.
+      + destruct Hf as (Hm & Hd & Ho & Hw). assert (m <> n) by (eapply Hfo; eauto).
+        rewrite nlook_rm. unfold upd_s.
+        replace (str_eqb m n) with false by (symmetry; apply str_eqb_neq; congruence).
+        replace (str_eqb n m) with false by (symmetry; apply str_eqb_neq; congruence). auto.
+      + intro Hw. destruct (Hf Hw) as [H1 H2]. unfold upd_s. split.
+        * destruct (str_eqb n target) eqn:E; beq; congruence.
+        * intros n2. rewrite nlook_rm. destruct (str_eqb n2 n) eqn:E; beq; [congruence|].
+          replace (str_eqb n n2) with false by (symmetry; apply str_eqb_neq; congruence). apply H2.
+    - intros n2 j2. unfold upd_s. rewrite nlook_rm. rewrite (str_eqb_sym n2 n). destruct (str_eqb n n2) eqn:E; beq; [discriminate|]. apply Hl.
+  Qed.
+
+  Lemma step_Rename : forall c s c' s' old nw,
+    R c s -> cstep replace target mode new c (Rename old nw) = Some c' -> step s (Rename old nw) = Some s' -> R c' s'.
+  Proof.
+    intros c s c' s' old nw HR Hc Hs. simpl in Hc, Hs.
+    destruct (nlook c old) as [[cont md]|] eqn:Enl; try discriminate.
+    destruct (fd_on c old) eqn:Efo; simpl in Hc; try discriminate.
+    destruct (str_eqb old nw) eqn:Eon; simpl in Hc; try discriminate.
+    destruct (R_n _ _ HR _ _ _ Enl) as (j & Hdj & Hij & Hsole).
+    rewrite Hdj in Hs. injection Hs as <-. beq.
+    assert (Hot : old <> target) by (intro; subst; rewrite (R_tn _ _ HR) in Enl; discriminate).
+    pose proof (fd_on_false c old) as Hfo.
+    destruct (str_eqb nw target) eqn:Ent; beq.
+    - (* the replacement of the target *)
+      destruct replace eqn:Erep; simpl in Hc; try discriminate.
+      destruct (str_eqb cont new) eqn:Ec; simpl in Hc; try discriminate.
+      destruct (N.eqb md mode) eqn:Em; simpl in Hc; try discriminate. injection Hc as <-. repeat beq.
+      start HR; auto.
+      + intros n' j'. unfold upd_s. destruct (str_eqb old n'); [discriminate|]. destruct (str_eqb target n') eqn:E; beq.
+        * intro H; inversion H; subst. eapply Hwd; eauto.
+        * apply Hwd.
+      + exists j, newI. unfold upd_s. replace (str_eqb old target) with false by (symmetry; apply str_eqb_neq; congruence).
+        rewrite str_eqb_refl. repeat split; auto.
+      + rewrite nlook_rm. destruct (str_eqb target old); auto.
+      + intros n' c2 m2. rewrite nlook_rm. destruct (str_eqb n' old) eqn:E; beq; [discriminate|].
+        intro H. destruct (Hn _ _ _ H) as (j2 & Hd2 & Hi2 & Hso2). exists j2.
+        assert (n' <> target) by (intro; subst; unfold nlook in Htn; congruence).
+        unfold upd_s. replace (str_eqb old n') with false by (symmetry; apply str_eqb_neq; congruence).
+        replace (str_eqb target n') with false by (symmetry; apply str_eqb_neq; congruence). repeat split; auto.
+        intros n2. destruct (str_eqb old n2); [discriminate|]. destruct (str_eqb target n2) eqn:E3; beq; [|apply Hso2].
+        intro H3; inversion H3; subst. apply Hso2 in Hdj. congruence.
+      + intros fd' e H. specialize (Hf _ _ H). destruct (alookup N.eqb fd' (c_fds c)) as [[m o]|] eqn:El.
+        * destruct Hf as (Hm & Hd & Ho & Hw). assert (m <> old) by (eapply Hfo; eauto).
+          assert (m <> target) by (intro; subst; congruence).
+          rewrite nlook_rm. unfold upd_s.
+          replace (str_eqb m old) with false by (symmetry; apply str_eqb_neq; congruence).
+          replace (str_eqb old m) with false by (symmetry; apply str_eqb_neq; congruence).
+          replace (str_eqb target m) with false by (symmetry; apply str_eqb_neq; congruence). auto.
+        * intro Hw. destruct (Hf Hw) as [H1 H2]. unfold upd_s.
+          replace (str_eqb old target) with false by (symmetry; apply str_eqb_neq; congruence). rewrite str_eqb_refl.
+          assert (Hj : dir s old <> Some (fe_ino e)) by (apply H2; unfold nlook in Enl; congruence).
+          split; [congruence|].
+          intros n2. rewrite nlook_rm. destruct (str_eqb n2 old) eqn:E; beq; [congruence|]. intro Hn2.
+          replace (str_eqb old n2) with false by (symmetry; apply str_eqb_neq; congruence).
+          destruct (str_eqb target n2) eqn:E3; beq; [congruence|]. apply H2; auto.
+      + intros n2 j2. unfold upd_s. rewrite nlook_rm. rewrite (str_eqb_sym n2 old).
+        destruct (str_eqb old n2) eqn:E; beq; [discriminate|]. destruct (str_eqb target n2) eqn:E3; beq; [auto|]. apply Hl.
+    - (* a created file gets another name *)
+      destruct (fd_on c nw) eqn:Efn; try discriminate. injection Hc as <-.
+      pose proof (fd_on_false c nw) as Hfn.
+      assert (Hlk : forall k, alookup str_eqb k ((nw, (cont, md)) :: aremove str_eqb nw (aremove str_eqb old (c_names c))) =
+                              if str_eqb k nw then Some (cont, md) else if str_eqb k old then None else alookup str_eqb k (c_names c)).
+      { intro k. rewrite nlook_set. destruct (str_eqb k nw); auto. apply nlook_rm. }
+      start HR; auto.
+      + intros n' j'. unfold upd_s. destruct (str_eqb old n'); [discriminate|]. destruct (str_eqb nw n') eqn:E; beq.
+        * intro H; inversion H; subst. eapply Hwd; eauto.
+        * apply Hwd.
+      + destruct Ht as (ti & I & Hd & Hi & HI). exists ti, I. repeat split; auto. unfold upd_s.
+        replace (str_eqb old target) with false by (symmetry; apply str_eqb_neq; congruence).
+        replace (str_eqb nw target) with false by (symmetry; apply str_eqb_neq; congruence). exact Hd.
+      + rewrite Hlk. replace (str_eqb target nw) with false by (symmetry; apply str_eqb_neq; congruence).
+        destruct (str_eqb target old); auto.
+      + intros n' c2 m2. rewrite Hlk. destruct (str_eqb n' nw) eqn:E; beq.
+        * intro H; inversion H; subst. exists j. unfold upd_s.
+          replace (str_eqb old nw) with false by (symmetry; apply str_eqb_neq; congruence). rewrite str_eqb_refl.
+          repeat split; auto. intros n2. destruct (str_eqb old n2) eqn:E2; beq; [discriminate|].
+          destruct (str_eqb nw n2) eqn:E3; beq; auto. intro H3. apply Hsole in H3. congruence.
+        * destruct (str_eqb n' old) eqn:E2; beq; [discriminate|].
+          intro H. destruct (Hn _ _ _ H) as (j2 & Hd2 & Hi2 & Hso2). exists j2. unfold upd_s.
+          replace (str_eqb old n') with false by (symmetry; apply str_eqb_neq; congruence).
+          replace (str_eqb nw n') with false by (symmetry; apply str_eqb_neq; congruence). repeat split; auto.
+          intros n2. destruct (str_eqb old n2); [discriminate|]. destruct (str_eqb nw n2) eqn:E3; beq; [|apply Hso2].
+          intro H3; inversion H3; subst. apply Hso2 in Hdj. congruence.
+      + intros fd' e H. specialize (Hf _ _ H). destruct (alookup N.eqb fd' (c_fds c)) as [[m o]|] eqn:El.
+        * destruct Hf as (Hm & Hd & Ho & Hw). assert (m <> old) by (eapply Hfo; eauto). assert (m <> nw) by (eapply Hfn; eauto).
+          rewrite Hlk. unfold upd_s.
+          replace (str_eqb m nw) with false by (symmetry; apply str_eqb_neq; congruence).
+          replace (str_eqb m old) with false by (symmetry; apply str_eqb_neq; congruence).
+          replace (str_eqb old m) with false by (symmetry; apply str_eqb_neq; congruence).
+          replace (str_eqb nw m) with false by (symmetry; apply str_eqb_neq; congruence). auto.
+        * intro Hw. destruct (Hf Hw) as [H1 H2]. unfold upd_s.
+          replace (str_eqb old target) with false by (symmetry; apply str_eqb_neq; congruence).
+          replace (str_eqb nw target) with false by (symmetry; apply str_eqb_neq; congruence).
+          assert (Hj : dir s old <> Some (fe_ino e)) by (apply H2; unfold nlook in Enl; congruence).
+          split; auto.
+          intros n2. rewrite Hlk. destruct (str_eqb n2 nw) eqn:E; beq.
+          -- intros _. replace (str_eqb old nw) with false by (symmetry; apply str_eqb_neq; congruence).
+             rewrite str_eqb_refl. congruence.
+          -- destruct (str_eqb n2 old) eqn:E2; beq; [congruence|]. intro Hn2.
+             replace (str_eqb old n2) with false by (symmetry; apply str_eqb_neq; congruence).
+             replace (str_eqb nw n2) with false by (symmetry; apply str_eqb_neq; congruence). apply H2; auto.
+      + intros n2 j2. unfold upd_s. rewrite Hlk. rewrite (str_eqb_sym n2 old), (str_eqb_sym n2 nw).
+        destruct (str_eqb old n2) eqn:E; beq; [discriminate|]. destruct (str_eqb nw n2) eqn:E3; beq; [intros; right; discriminate|]. apply Hl.
+  Qed.
+
+  Lemma step_OpenCreatExcl : forall c s c' s' n md fd,
+    R c s -> cstep replace target mode new c (OpenCreatExcl n md fd) = Some c' ->
+    step s (OpenCreatExcl n md fd) = Some s' -> R c' s'.
+  Proof.
+    intros c s c' s' n md fd HR Hc Hs. simpl in Hc, Hs.
+    destruct (str_eqb n target) eqn:Ent; simpl in Hc; try discriminate.
+    destruct (nlook c n) eqn:Enl; simpl in Hc; try discriminate.
+    destruct (flook c fd) eqn:Efl; simpl in Hc; try discriminate.
+    injection Hc as <-.
+    destruct (dir s n) eqn:Edn; try discriminate. injection Hs as <-. beq.
+    start HR; cbn [alookup].
+    - intros n' j. unfold upd_s. destruct (str_eqb n n') eqn:E; beq; intro H; [inversion H; lia | apply Hwd in H; lia].
+    - intros fd' e. unfold upd_N. destruct (N.eqb fd fd') eqn:E; beq; intro H; [inversion H; subst; cbn [fe_ino]; lia | apply Hwf in H; lia].
+    - lia.
+    - destruct Ht as (ti & I & Hd & Hi & HI). exists ti, I. unfold upd_s, upd_n.
+      replace (str_eqb n target) with false by (symmetry; apply str_eqb_neq; congruence).
+      destruct (Nat.eqb (next s) ti) eqn:E; beq; auto. apply Hwd in Hd. lia.
+    - replace (str_eqb target n) with false by (symmetry; apply str_eqb_neq; congruence). exact Htn.
+    - intros n' cont md'. destruct (str_eqb n' n) eqn:E; beq.
+      + intro H; inversion H; subst. exists (next s). unfold upd_s, upd_n. rewrite str_eqb_refl, Nat.eqb_refl.
+        repeat split; auto. intros n2. destruct (str_eqb n n2) eqn:E2; beq; auto. intro H2. apply Hwd in H2. lia.
+      + intro H. destruct (Hn _ _ _ H) as (j & Hd & Hi & Hso). exists j.
+        assert (Hj : j < next s) by (eapply Hwd; eauto).
+        unfold upd_s, upd_n.
+        replace (str_eqb n n') with false by (symmetry; apply str_eqb_neq; congruence).
+        replace (Nat.eqb (next s) j) with false by (symmetry; apply Nat.eqb_neq; lia).
+        repeat split; auto. intros n2. destruct (str_eqb n n2) eqn:E2; beq; [|apply Hso].
+        intro H2; inversion H2; lia.
+    - intros fd' e. unfold upd_N. rewrite (N.eqb_sym fd' fd). destruct (N.eqb fd fd') eqn:E; beq.
+      + intro H; inversion H; subst; cbn [fe_ino fe_wr fe_off]. rewrite str_eqb_refl. unfold upd_s. rewrite str_eqb_refl.
+        repeat split; auto. discriminate.
+      + intro He. specialize (Hf _ _ He).
+        assert (Hj : fe_ino e < next s) by (eapply Hwf; eauto).
+        destruct (alookup N.eqb fd' (c_fds c)) as [[m off]|] eqn:El.
+        * destruct Hf as (Hm & Hd & Ho & Hw). unfold upd_s. destruct (str_eqb m n) eqn:E3; beq.
+          -- unfold nlook in Enl. congruence.
+          -- replace (str_eqb n m) with false by (symmetry; apply str_eqb_neq; congruence). auto.
+        * intro Hw. destruct (Hf Hw) as [Ho1 Ho2]. unfold upd_s.
+          replace (str_eqb n target) with false by (symmetry; apply str_eqb_neq; congruence). split; auto.
+          intros n2. destruct (str_eqb n2 n) eqn:E3; beq.
+          -- rewrite str_eqb_refl. intros _ H2. inversion H2. lia.
+          -- replace (str_eqb n n2) with false by (symmetry; apply str_eqb_neq; congruence). apply Ho2.
+    - intros fd' m off. unfold upd_N. rewrite (N.eqb_sym fd' fd). destruct (N.eqb fd fd') eqn:E; beq; [discriminate|]. apply Hcf.
+    - intros n2 j. unfold upd_s. rewrite (str_eqb_sym n2 n). destruct (str_eqb n n2) eqn:E; beq; [intros; right; discriminate|]. apply Hl.
+  Qed.
+
+  (* --- one step, any operation ---------------------------------------------------- *)
+  Lemma step_R : forall o c s c' s',
+    R c s -> cstep replace target mode new c o = Some c' -> step s o = Some s' -> R c' s'.
+  Proof.
+    destruct o; intros c s c' s' HR Hc Hs.
+    - eapply step_OpenCreatExcl; eauto.
+    - eapply step_OpenRead; eauto.
+    - simpl in Hc; discriminate.
+    - simpl in Hc; discriminate.
+    - eapply step_Write; eauto.
+    - eapply step_Fchmod; eauto.
+    - eapply step_Chmod; eauto.
+    - eapply step_Fsync; eauto.
+    - eapply step_Close; eauto.
+    - eapply step_Rename; eauto.
+    - eapply step_Unlink; eauto.
+    - simpl in Hc; discriminate.
+  Qed.
+
+  Lemma run_R : forall t c s c' s',
+    R c s -> crun replace target mode new c t = Some c' -> run t s = Some s' -> R c' s'.
+  Proof.
+    induction t as [|o t IH]; simpl; intros c s c' s' HR Hc Hs.
+    - congruence.
+    - destruct (cstep replace target mode new c o) as [c1|] eqn:E1; try discriminate.
+      destruct (step s o) as [s1|] eqn:E2; try discriminate.
+      apply (IH c1 s1 c' s'); auto. eapply step_R; eauto.
+  Qed.
+
+  Lemma crun_prefix : forall t c c' k,
+    crun replace target mode new c t = Some c' -> exists c'', crun replace target mode new c (firstn k t) = Some c''.
+  Proof.
+    induction t as [|o t IH]; intros c c' k Hc.
+    - rewrite firstn_nil. simpl. eauto.
+    - destruct k; simpl; eauto. simpl in Hc.
+      destruct (cstep replace target mode new c o) as [c1|] eqn:E1; try discriminate. eapply IH; eauto.
+  Qed.
+
+  Lemma R_init : forall s0,
+    init_ok s0 target I0 -> next0 = next s0 -> R cst0 s0.
+  Proof.
+    intros s0 (Hwf & Hlook & Hfd) Hnx. unfold look in Hlook. destruct (dir s0 target) as [ti|] eqn:Ed; try discriminate.
+    constructor; auto.
+    - lia.
+    - exists ti, I0. auto.
+    - intros n cont md H. discriminate.
+    - intros fd e H. simpl. intro Hw. split; [rewrite Ed; eapply Hfd; eauto|]. intros n Hn. exfalso; apply Hn; reflexivity.
+    - intros fd n off H. discriminate.
+    - intros n j Hd Hge. destruct Hwf as [Hwd _]. apply Hwd in Hd. lia.
+  Qed.
+End Sim.
+
+(* --- the theorems of property C35 --------------------------------------------------- *)
+Theorem checker_sound : forall target mode new orig s0 t,
+  init_ok s0 target (mkInode orig mode Regular) ->
+  atomic_replace_ok target mode new t = true ->
+  (forall k s, crash k t s0 = Some s ->
+     exists b, look s target = Some (mkInode b mode Regular) /\ (b = orig \/ b = new)) /\
+  (forall s, run t s0 = Some s -> forall n j, dir s n = Some j -> next s0 <= j -> n = target).
+Proof.
+  intros target mode new orig s0 t Hinit Hok. unfold atomic_replace_ok in Hok.
+  destruct (crun true target mode new cst0 t) as [c|] eqn:Ec; try discriminate.
+  pose proof (R_init true target mode new (mkInode orig mode Regular) (next s0) s0 Hinit eq_refl) as HR0.
+  split.
+  - intros k s Hk. unfold crash in Hk.
+    destruct (crun_prefix true target mode new t cst0 c k Ec) as (c2 & Hc2).
+    pose proof (run_R _ _ _ _ _ _ _ _ _ _ _ HR0 Hc2 Hk) as HR.
+    destruct (R_t _ _ _ _ _ _ _ _ HR) as (ti & I & Hd & Hi & HI). unfold look. rewrite Hd, Hi.
+    destruct HI as [->|[_ ->]]; [exists orig | exists new]; auto.
+  - intros s Hs n j Hd Hge.
+    pose proof (run_R _ _ _ _ _ _ _ _ _ _ _ HR0 Ec Hs) as HR.
+    destruct (R_l _ _ _ _ _ _ _ _ HR _ _ Hd Hge) as [H|H]; auto.
+    exfalso. apply H. unfold no_names in Hok. unfold nlook. destruct (c_names c); [reflexivity|discriminate].
+Qed.
+
+Theorem nonregular_refused : forall target I0 s0 t,
+  init_ok s0 target I0 ->
+  untouched_ok target t = true ->
+  (forall k s, crash k t s0 = Some s -> look s target = Some I0) /\
+  (forall s, run t s0 = Some s -> forall n j, dir s n = Some j -> next s0 <= j -> n = target).
+Proof.
+  intros target I0 s0 t Hinit Hok. unfold untouched_ok in Hok.
+  destruct (crun false target 0%N [] cst0 t) as [c|] eqn:Ec; try discriminate.
+  pose proof (R_init false target 0%N [] I0 (next s0) s0 Hinit eq_refl) as HR0.
+  split.
+  - intros k s Hk. unfold crash in Hk.
+    destruct (crun_prefix false target 0%N [] t cst0 c k Ec) as (c2 & Hc2).
+    pose proof (run_R _ _ _ _ _ _ _ _ _ _ _ HR0 Hc2 Hk) as HR.
+    destruct (R_t _ _ _ _ _ _ _ _ HR) as (ti & I & Hd & Hi & HI). unfold look. rewrite Hd, Hi.
+    destruct HI as [->|[H _]]; [reflexivity|discriminate].
+  - intros s Hs n j Hd Hge.
+    pose proof (run_R _ _ _ _ _ _ _ _ _ _ _ HR0 Ec Hs) as HR.
+    destruct (R_l _ _ _ _ _ _ _ _ HR _ _ Hd Hge) as [H|H]; auto.
+    exfalso. apply H. unfold no_names in Hok. unfold nlook. destruct (c_names c); [reflexivity|discriminate].
+Qed.
+
 (* --- non-vacuity: concrete histories ------------------------------------------ *)
 Open Scope N_scope.
 Definition ex_target : str := [47;100;47;97].           (* "/d/a" *)
@@ -123,5 +675,16 @@ Lemma ex_bad_partial :
     look_is s ex_target (mkInode [105;102] 493 Regular) = true.
 Proof.
   exists 4%nat. eexists. split; [vm_compute; reflexivity|]. vm_compute. auto.
+Qed.
+
+(* the hypotheses of the theorems are satisfiable: ex_s0 is an admissible initial state *)
+Lemma ex_init_ok : init_ok ex_s0 ex_target (mkInode ex_orig 493 Regular).
+Proof.
+  split; [split|split].
+  - intros n j. unfold ex_s0, add_file, empty_fs. cbn [dir next]. unfold upd_s.
+    destruct (str_eqb ex_target n); intro H; inversion H. lia.
+  - intros fd e H. discriminate.
+  - vm_compute. reflexivity.
+  - intros fd e H. discriminate.
 Qed.
 Close Scope N_scope.
